@@ -160,6 +160,25 @@ pub struct Outcome {
     pub harness_error: Option<String>,
 }
 
+thread_local! {
+    static CURRENT: std::cell::RefCell<Option<Ctx>> = const { std::cell::RefCell::new(None) };
+}
+
+/// Makes `ctx` the recorder that seams without their own handle (resolver, lookup services,
+/// connectors) report fired faults to. Set by the driver on the run's thread.
+pub fn set_current(ctx: Option<Ctx>) {
+    CURRENT.with(|c| *c.borrow_mut() = ctx);
+}
+
+/// Counts a fault that actually fired (`fault.<kind>` in evidence) on the current run's thread.
+pub fn fault_fired(kind: &str) {
+    CURRENT.with(|c| {
+        if let Some(ctx) = c.borrow().as_ref() {
+            ctx.count(&format!("fault.{kind}"));
+        }
+    });
+}
+
 /// Object-safe property interface used by the driver.
 pub trait Property: Send + Sync + 'static {
     fn id(&self) -> &'static str;
